@@ -338,6 +338,10 @@ func (o *originRT) RoundTrip(req *http.Request) (*http.Response, error) {
 					cp.Status, cp.Fault, cp.FaultAt, cp.No304 = uf.Status, "stall", uf.At, true
 					cp.CC, cp.ExpMode, cp.CCStyle, cp.Framing = "no-store", "", "", ""
 					cp.BodyLen = max(cp.BodyLen, 40)
+				case "eofhuge":
+					// a reply that declares an absurd length and ends after a few bytes
+					cp.Fault, cp.FaultAt, cp.HugeCL, cp.Framing = "eof", uf.At, true, ""
+					cp.BodyLen = max(cp.BodyLen, 40)
 				default:
 					cp.Fault, cp.FaultAt = uf.Fault, uf.At
 				}
@@ -781,7 +785,12 @@ func (r *Run) compose(g *kit.Gor, call *UpCall, req *http.Request, res, planIdx 
 		}
 	default:
 		if hasBody || req.Method == http.MethodHead {
-			add("Content-Length", strconv.Itoa(len(makeBodyLen(plan, req.Method, status, sid))))
+			if plan.HugeCL && hasBody {
+				add("Content-Length", "140737488355328")
+				r.fired("net.absurd-content-length")
+			} else {
+				add("Content-Length", strconv.Itoa(len(makeBodyLen(plan, req.Method, status, sid))))
+			}
 		}
 	}
 	for _, k := range order {
